@@ -369,6 +369,29 @@ pub fn run(ctx: &Ctx) -> (Stats, Report) {
         });
         st.merge(s);
     }
+    let btods = crate::pools::binary_times_of_day();
+    let bdates = crate::pools::date_pool(seed, 60);
+    for u in UNITS {
+        let b = bounds(u);
+        let (bref, tref, dref) = (&b, &btods, &bdates);
+        let s = par_sweep(bdates.len() as u64, 4, |range, st| {
+            for k in range {
+                let n = dref[k as usize] as i32;
+                for &t in tref.iter() {
+                    st.evaluations += 1;
+                    st.nontrivial_enum += 1;
+                    let v = check_round(1, u, bref, n, t as i64);
+                    if v != Verdict::Pass {
+                        st.verdict(v, k, || Case::new(P, "round", vec![1, u.index() as i128, n as i128, t], vec![]));
+                        if st.has_fail() {
+                            return;
+                        }
+                    }
+                }
+            }
+        });
+        st.merge(s);
+    }
     st.section("every_second_of_sampled_days", &mut mark);
 
     let rep = Report {
